@@ -217,7 +217,13 @@ impl<'a> World<'a> {
             } else {
                 self.rng.range(1, 16) as u16
             };
-            return FSpec { typ: self.rng.range(1, 32767) as u16, len, ent: Some(self.rng.next_u64() as u32) };
+            // enterprise element ids span the whole 15-bit range, 0 and 32767 included
+            let typ = match self.rng.below(8) {
+                0 => 0,
+                1 => 32767,
+                _ => self.rng.range(0, 32767) as u16,
+            };
+            return FSpec { typ, len, ent: Some(self.rng.next_u64() as u32) };
         }
         let typ = if cfg.unknown_types && self.rng.chance(1, 6) {
             // numbers the library's tables do not know
@@ -499,6 +505,11 @@ impl<'a> World<'a> {
                 let n = self.rng.urange(0, 40);
                 v.extend(self.rng.bytes(n));
                 v
+            }
+            ExKind::V9 | ExKind::Ipfix if self.rng.chance(1, 30) => {
+                // a header-only packet (keep-alive): legal, self-delimiting, decodes to no sets
+                self.stats.hit("header_only_packet");
+                self.assemble(e, vec![], 0)
             }
             ExKind::V9 | ExKind::Ipfix => {
                 let cfg = self.cfg;
